@@ -22,7 +22,7 @@ RULE = ("Hypothesis generates layout trees (struct / union / array / flexible wi
         "ctx.get(view[path]) == slice of raw == from_bits(raw)[path] at every path incl. array slices and dynamic "
         "indices; assignment through view[path] by ctx.set, by a combinational and by a clocked statement changes "
         "exactly that field's bits, and the same reads and combinational writes are repeated on the emitted RTLIL "
-        "executed by the independent evaluator (synthesis leg); Struct/Union classes with field defaults and init overrides. enums: shaped "
+        "executed by the independent evaluator (synthesis leg); Struct/Union classes with field defaults and init overrides (defaults must not be changed by an earlier use); nested Struct classes whose inner defaults are selected by an empty / None / partial / absent outer initialiser. enums: shaped "
         "Enum/IntEnum/Flag/IntFlag classes with generated members: const/from_bits round trip, Const.cast value, "
         "FlagView | & ^ ~ (view op view, view op member, member op view) read back in simulation == Python enum.Flag. "
         "Non-trivial: nesting >=2, or a signed/enum field, or overlapping flexible fields, or a dynamic array index; "
@@ -501,6 +501,15 @@ def layout_body(ctx, case):
                 m2.d.comb += o.eq(Value.cast(follow(v2, path)))
                 pd[f"fld{k}"] = (o, None)
                 rd.append((f"fld{k}", f, off))
+            # a field assignment FOLLOWED by an unconditional assignment of the whole view: the later one wins everywhere
+            v3 = Signal(lay, name="v3")
+            v4 = Signal(lay, name="v4")
+            for j, (path, f, off, base, val, vin, sel) in enumerate(wr[:1]):
+                with m2.If(pd[f"sel{j}"][0]):
+                    m2.d.comb += follow(v3, path).eq(pd[f"vin{j}"][0])
+                m2.d.comb += follow(v4, path).eq(pd[f"vin{j}"][0])
+            m2.d.comb += [Value.cast(v3).eq(bin2), Value.cast(v4).eq(bin2)]
+            pd["v3"] = (Value.cast(v3), None); pd["v4"] = (Value.cast(v4), None)
             text, _ = rtlil.convert_fragment(Fragment.get(m2, None), ports=pd, name="top")
             ev = RE.Evaluator(RR.parse(text))
             def rset(upd):
@@ -524,6 +533,12 @@ def layout_body(ctx, case):
                 exp = (base & ~mask) | (val << off)
                 if rv is not None and (rv ^ exp) & ~rx:
                     raise Mismatch("view-write-in-rtlil", path=list(path), base=base, value=val, expected=exp, actual=rv)
+                for nm in ("v3", "v4"):
+                    if ("\\" + nm,) in ev.wires:
+                        r3, x3 = ev.get(("\\" + nm,))
+                        if (r3 ^ base) & ~x3:
+                            raise Mismatch("whole-view-assignment-after-field-assignment-in-rtlil", signal=nm, path=list(path),
+                                           base=base, value=val, expected=base, actual=r3)
                 rset({sn: 0})
             ctx.tally("lay:rtlil-leg")
     keys = ["lay:" + d[0], "lay:depth%d" % min(depth_of(d), 3)]
@@ -599,6 +614,11 @@ def class_body(ctx, case):
             if Value.cast(s1).init != exp:
                 raise Mismatch("class-init-override", defaults=dv, override=ov, expected=exp, actual=Value.cast(s1).init)
             ctx.tally("cls:init-override")
+            # using the class with an initialiser must not change what later uses get
+            s2 = Signal(cls)
+            if Value.cast(s2).init != compose(dv) or hdl.Const.cast(cls.const(None)).value != compose(dv):
+                raise Mismatch("class-defaults-changed-by-an-earlier-use", defaults=dv, override=ov, expected=compose(dv),
+                               actual=Value.cast(s2).init)
         # attribute access == item access, const round trip
         raw = case["raw"]
         c = cls.from_bits(raw)
@@ -749,12 +769,95 @@ def enum_body(ctx, case):
     ctx.note(case, len(members) >= 3, *keys, evals=len(members) + nops)
 
 
+# ------------------------------------------------------------------------------------------ nested aggregate classes
+@st.composite
+def nested_cases(draw):
+    def inner(level):
+        fs = []
+        for i in range(draw(INT(1, 3))):
+            w = draw(INT(1, 4))
+            fs.append({"name": f"f{i}", "w": w, "default": draw(INT(0, (1 << w) - 1)) if draw(INT(0, 3)) else None})
+        node = {"fields": fs, "kind": PICK(draw, ["absent", "empty", "none", "partial", "absent", "empty"]),
+                "partial": None, "child": None}
+        if node["kind"] == "partial":
+            f = PICK(draw, fs)
+            node["partial"] = [f["name"], draw(INT(0, (1 << f["w"]) - 1))]
+        if level > 0 and draw(BOOL):
+            node["child"] = inner(level - 1)
+        return node
+    return {"tree": inner(draw(INT(0, 2))), "uses": [PICK(draw, ["none", "empty", "override"]) for _ in range(draw(INT(1, 3)))]}
+
+
+def nested_body(ctx, case):
+    counter = [0]
+
+    def build(node):
+        """-> (class, width, value of Class.const(None))"""
+        ann, ns = {}, {}
+        off, dflt = 0, 0
+        for f in node["fields"]:
+            ann[f["name"]] = unsigned(f["w"])
+            if f["default"] is not None:
+                ns[f["name"]] = f["default"]
+                dflt |= f["default"] << off
+            off += f["w"]
+        if node["child"] is not None:
+            ccls, cw, cd = build(node["child"])
+            ann["child"] = ccls
+            k = node["child"]["kind"]
+            if k == "empty":
+                ns["child"] = {}; dflt |= cd << off
+            elif k == "none":
+                ns["child"] = None; dflt |= cd << off
+            elif k == "partial":
+                nm, v = node["child"]["partial"]
+                ns["child"] = {nm: v}
+                o2 = 0
+                val = cd
+                for f in node["child"]["fields"]:
+                    if f["name"] == nm:
+                        val = (val & ~(((1 << f["w"]) - 1) << o2)) | (v << o2)
+                    o2 += f["w"]
+                dflt |= val << off
+            # absent: the nested field is not initialised at all (zero bits)
+            off += cw
+        ns["__annotations__"] = ann
+        counter[0] += 1
+        return type(f"N{counter[0]}", (data.Struct,), ns), off, dflt
+
+    with warnings.catch_warnings():
+        warnings.simplefilter("ignore")
+        cls, w, dflt = build(case["tree"])
+        first = None
+        for use in case["uses"]:
+            got = hdl.Const.cast(cls.const(None if use != "empty" else {})).value
+            if got != dflt:
+                raise Mismatch("nested-class-defaults", tree=case["tree"], use=use, expected=dflt, actual=got)
+            sig = Signal(cls)
+            if Value.cast(sig).init != dflt:
+                raise Mismatch("nested-class-signal-init", tree=case["tree"], expected=dflt, actual=Value.cast(sig).init)
+            if use == "override":
+                f = case["tree"]["fields"][0]
+                v = (1 << f["w"]) - 1
+                got = hdl.Const.cast(cls.const({f["name"]: v})).value
+                exp = (dflt & ~((1 << f["w"]) - 1)) | v
+                if got != exp:
+                    raise Mismatch("nested-class-override", expected=exp, actual=got)
+            if cls.from_bits(dflt).as_bits() != dflt:
+                raise Mismatch("nested-class-from_bits")
+    def depth(n): return 1 + (depth(n["child"]) if n["child"] else 0)
+    def kinds(n): return ([n["child"]["kind"]] + kinds(n["child"])) if n["child"] else []
+    keys = ["nest:depth%d" % depth(case["tree"])] + ["nest:child-" + k for k in kinds(case["tree"])]
+    ctx.note(case, depth(case["tree"]) >= 2, *keys, evals=len(case["uses"]))
+
+
 def parts(tier):
     q = tier == "quick"
     return [
         Part("layouts", "hyp", strategy=layout_cases(2 if q else 3), body=layout_body, n=100 if q else 1500),
         Part("classes", "hyp", strategy=class_cases(), body=class_body, n=150 if q else 2000),
         Part("enums", "hyp", strategy=enum_cases(), body=enum_body, n=120 if q else 2000),
+        Part("nested", "hyp", strategy=nested_cases(), body=nested_body, n=150 if q else 2000),
     ]
 
 
@@ -762,4 +865,5 @@ REQUIRED = ["lay:struct", "lay:union", "lay:array", "lay:flex", "lay:depth2", "l
             "lay:dynamic-index", "lay:write-through-view", "lay:enum-field", "lay:all-patterns",
             "lay:const-generated-initialiser", "lay:const-hdl-const-initialiser", "lay:rtlil-leg", "cls:struct", "cls:union",
             "cls:defaults", "cls:init-override", "enum:Enum", "enum:IntEnum", "enum:Flag", "enum:IntFlag",
-            "enum:flag-ops", "enum:flag-multibit-with-unnamed-bit"]
+            "enum:flag-ops", "enum:flag-multibit-with-unnamed-bit", "nest:depth2", "nest:child-empty", "nest:child-none",
+            "nest:child-partial", "nest:child-absent"]
